@@ -6,6 +6,7 @@ import (
 	"net/http"
 	"net/http/httptest"
 	"strings"
+	"time"
 
 	"verif/kf"
 	"verif/rt"
@@ -99,5 +100,125 @@ func c13Middleware(c *Ctx, rep *kf.Report, _ *rt.Session) {
 	rep.Coverage["middleware_stacks_with_ties"] = ties
 	if n == 0 {
 		rep.Infraf("Middleware spec produced no CASE")
+	}
+}
+
+type mwGroupCase struct {
+	Reg []struct {
+		Owner string
+		Pri   int
+	}
+	Scope    string
+	Stop     int
+	StopKind string
+	Order    []int
+	Trace    []string
+	Status   int
+}
+
+// c13Groups replays spec/MiddlewareGroups.tla: route groups see the root's and their own middlewares only, and a
+// middleware that answers by itself (closure or class instance) decides the status the client gets.
+func c13Groups(c *Ctx, rep *kf.Report) {
+	res := runTLC(rep, tlc.Run{SpecDir: c.SpecDir(), Module: "MiddlewareGroups", Cfg: "MiddlewareGroups.cfg", Workers: 4, Timeout: 10 * time.Minute})
+	if res == nil {
+		return
+	}
+	addTLC(rep, res)
+	if res.Violated != "" {
+		rep.Infraf("spec MiddlewareGroups: %s violated\n%s", res.Violated, res.Tail(30))
+		return
+	}
+	all := res.Tagged["CASE"]
+	step := c.Pick(4, 1)
+	n, stops, grouped := 0, 0, 0
+	for ci := int(c.Seed) % step; ci < len(all); ci += step {
+		var mc mwGroupCase
+		must(json.Unmarshal(all[ci], &mc))
+		n++
+		stopper := 0
+		if mc.Stop > 0 {
+			stopper = mc.Order[mc.Stop-1]
+			stops++
+		}
+		var src strings.Builder
+		src.WriteString("use Net\\Http\\Server;\n$server = new Server('127.0.0.1', 0);\n")
+		mw := func(i int, target string, pri int) {
+			kind := []string{"closure", "class"}[(i+int(c.Seed))%2]
+			body := fmt.Sprintf("echo 'pre%d;'; $next($request, $response); echo 'post%d;';", i, i)
+			if i == stopper {
+				kind = mc.StopKind
+				body = fmt.Sprintf("echo 'pre%d;'; $response->header('X-Stop', '%d'); $response->status(403); echo 'post%d;'; return null;", i, i, i)
+			}
+			if kind == "closure" {
+				fmt.Fprintf(&src, "%s->middleware(function ($request, $response, $next) { %s }, %d);\n", target, body, pri)
+			} else {
+				fmt.Fprintf(&src, "class G%d {\n  public function handle($request, $response, $next) { %s }\n}\n%s->middleware(new G%d(), %d);\n", i, body, target, i, pri)
+			}
+		}
+		groupsMade := false
+		for i, e := range mc.Reg {
+			target := "$server"
+			if e.Owner != "root" {
+				if !groupsMade {
+					src.WriteString("$gA = $server->group('/a');\n$gB = $server->group('/b');\n")
+					groupsMade = true
+				}
+				target = "$g" + e.Owner
+				grouped++
+			}
+			mw(i+1, target, e.Pri)
+		}
+		if !groupsMade {
+			src.WriteString("$gA = $server->group('/a');\n$gB = $server->group('/b');\n")
+		}
+		h := "function ($req, $res) { echo 'h0;'; $res->status(201); $res->write('ok'); }"
+		fmt.Fprintf(&src, "$gA->get('/m', %s);\n$gB->get('/m', %s);\n$server->get('/m', %s);\n", h, h, h)
+		path := map[string]string{"root": "/m", "A": "/a/m", "B": "/b/m"}[mc.Scope]
+		var regs []string
+		for _, e := range mc.Reg {
+			regs = append(regs, fmt.Sprintf("%s%d", e.Owner, e.Pri))
+		}
+		id := fmt.Sprintf("C13/groups/scope=%s/stop=%d:%s/reg=%s", mc.Scope, mc.Stop, mc.StopKind, strings.Join(regs, ","))
+		sess := rt.NewSession()
+		var out strings.Builder
+		restore := swapOutput(&out)
+		r := sess.Exec(src.String(), "/verif-virtual/c13groups.zy")
+		if r.ParseErr != "" || r.Uncaught != "" || r.Panic != "" {
+			restore()
+			rep.Add(kf.Mismatch{ID: id, Expected: "registration succeeds", Observed: r, ObsKey: "setup-failed", Input: src.String()})
+			continue
+		}
+		sv, _ := sess.Var("server").(interface{ GetSource() any })
+		mux, _ := sv.GetSource().(*http.ServeMux)
+		rec := httptest.NewRecorder()
+		var pan any
+		func() {
+			defer func() { pan = recover() }()
+			mux.ServeHTTP(rec, httptest.NewRequest("GET", path, nil))
+		}()
+		restore()
+		got := strings.Split(strings.TrimSuffix(out.String(), ";"), ";")
+		if pan != nil {
+			rep.Add(kf.Mismatch{ID: id, Expected: mc.Trace, Observed: fmt.Sprint(pan), ObsKey: "panic", Input: src.String()})
+			continue
+		}
+		wantBody, wantStop := "ok", ""
+		if mc.Stop > 0 {
+			wantBody, wantStop = "", fmt.Sprint(stopper)
+		}
+		if jsonStr(got) != jsonStr(mc.Trace) {
+			rep.Add(kf.Mismatch{ID: id, Expected: mc.Trace, Observed: got, ObsKey: "order:" + strings.Join(got, ","), Input: src.String()})
+			continue
+		}
+		if rec.Code != mc.Status || rec.Body.String() != wantBody || rec.Header().Get("X-Stop") != wantStop {
+			rep.Add(kf.Mismatch{ID: id, Expected: map[string]any{"status": mc.Status, "body": wantBody, "X-Stop": wantStop},
+				Observed: map[string]any{"status": rec.Code, "body": rec.Body.String(), "X-Stop": rec.Header().Get("X-Stop")}, ObsKey: fmt.Sprintf("status=%d", rec.Code), Input: src.String()})
+		}
+	}
+	rep.Coverage["middleware_group_scenarios"] = n
+	rep.Coverage["middleware_group_scenarios_with_self_answer"] = stops
+	rep.Coverage["middleware_group_registrations"] = grouped
+	if n == 0 {
+		rep.Infraf("MiddlewareGroups spec produced no CASE")
 	}
 }
